@@ -32,8 +32,8 @@
 // generated delay, which ends all of them together, as a caller does that issues several
 // requests under one request context. Generated cases use cancel groups in bursts only, where
 // the requests have disjoint key sets (with overlapping key sets on several sessions a shared
-// cancellation that meets arriving blocks leaves wants behind on the unchanged tree, see the
-// report of 2026-09-22; not yet classified). A quarter of the cases are "bursts": 2-8 requests for
+// cancellation that meets arriving blocks mostly re-finds want-relisted-after-delivery: the
+// sessions have handled the blocks, the requests are cancelled before they read them). A quarter of the cases are "bursts": 2-8 requests for
 // disjoint key sets on one long-lived session under one shared context, cancelled together while
 // wants are outstanding, repeated for up to 12 rounds. A sixth of the remaining cases are
 // "sweeps": a request for blocks > 1 KiB that most nodes hold is cancelled about one network
@@ -42,12 +42,23 @@
 // the peers' HAVEs. Rounds reuse the phase machinery: a round starts only when the want-list was
 // seen clean after the round before.
 //
-// A lingering want that could be the open finding cancelled-want-rebroadcast is probed: the
-// harness asks for the CIDs once more through a throw-away request and cancels it (the exchange
-// then retracts what no session is interested in any more), and lets the session timers fire
-// again. Only an entry that this clears for good is a one-off stale entry and matches the
-// finding; a CID that stays (a session that lost the cancel is still interested) or comes back
-// (a session keeps re-broadcasting it) does not (see rebroadcastSignature).
+// Open findings and what is excluded as them (see the comment on keyLateWant / keySameSession
+// for the derivation from the boxo code). Every node carries a message tap (bitswap.WithTracer),
+// so the harness knows which blocks arrived at a node and which wants reached a holder. A
+// lingering want is excluded (counted as excluded_known, not reported) only if every lingering
+// CID (1) is reported by GetWantlist() itself and (2) is explained by an open finding: (a) a
+// block with that CID arrived at the node in this step or the one before
+// (want-relisted-after-delivery: a want registered or handed to the peer manager after the
+// arriving block was dealt with), or (b) the CID was asked for by two calls on one NewSession
+// session, in one phase or in this step and the one before, and a request ended without it
+// (same-session-overlap-cancel-starves: the first call's cancel withdrew the session's interest,
+// so nothing retracts the other call's wants). A CID explained by (b) only must moreover be a
+// stale entry nobody owns: the harness asks for the CIDs once more through a throw-away request
+// and cancels it (the exchange then retracts what no session is interested in any more) and
+// lets the session timers fire again; a CID that stays (a session that lost the cancel is still
+// interested) or comes back (a session keeps re-broadcasting it) in each of up to three such
+// probes is not excluded. A missing delivery is excluded only in the shapes described at
+// missingShape.
 //
 // Not in the domain: connecting / disconnecting nodes while requests run. The property
 // quantifies over request sets, placement, duplicates, overlapping requests and sessions,
@@ -428,10 +439,20 @@ type outcome struct {
 // nodeTracer records, for one node, the blocks that arrived in bitswap messages (bitswap.WithTracer,
 // the public tap on all messages of a node): for every CID the step (round * phases + phase) and
 // the time of the latest arrival. A tap, not a hook: the messages are not touched.
+var (
+	devEventsMu sync.Mutex
+	devEvents   []string
+)
+
 type nodeTracer struct {
+	node int
 	mu   sync.Mutex
 	step int
 	last map[cid.Cid]arrival
+	// first[k]: the first arrival of a block with CID k in the step first[k].step
+	first map[cid.Cid]arrival
+	// wants[p][k]: when the latest want (want-have or want-block, not a cancel) for k arrived from peer p
+	wants map[peer.ID]map[cid.Cid]time.Time
 }
 
 type arrival struct {
@@ -439,17 +460,54 @@ type arrival struct {
 	at   time.Time
 }
 
-func (t *nodeTracer) MessageReceived(_ peer.ID, m bsmsg.BitSwapMessage) {
-	bs := m.Blocks()
-	if len(bs) == 0 {
+func (t *nodeTracer) MessageReceived(from peer.ID, m bsmsg.BitSwapMessage) {
+	bs, ws := m.Blocks(), m.Wantlist()
+	if len(bs) == 0 && len(ws) == 0 && !devVerbose {
 		return
 	}
 	now := time.Now()
+	if devVerbose {
+		ev := fmt.Sprintf("%s node %d <- %s:", now.Format("05.000000"), t.node, from.String()[len(from.String())-4:])
+		for _, b := range bs {
+			ev += " BLOCK " + b.Cid().String()[len(b.Cid().String())-5:]
+		}
+		for _, e := range ws {
+			ev += fmt.Sprintf(" want(%s type=%v cancel=%v)", e.Cid.String()[len(e.Cid.String())-5:], e.WantType, e.Cancel)
+		}
+		for _, k := range m.Haves() {
+			ev += " HAVE " + k.String()[len(k.String())-5:]
+		}
+		for _, k := range m.DontHaves() {
+			ev += " DONT_HAVE " + k.String()[len(k.String())-5:]
+		}
+		devEventsMu.Lock()
+		devEvents = append(devEvents, ev)
+		devEventsMu.Unlock()
+	}
 	t.mu.Lock()
 	for _, b := range bs {
 		t.last[b.Cid()] = arrival{t.step, now}
+		if f, ok := t.first[b.Cid()]; !ok || f.step != t.step {
+			t.first[b.Cid()] = arrival{t.step, now}
+		}
+	}
+	for _, e := range ws {
+		if !e.Cancel {
+			if t.wants[from] == nil {
+				t.wants[from] = map[cid.Cid]time.Time{}
+			}
+			t.wants[from][e.Cid] = now
+		}
 	}
 	t.mu.Unlock()
+}
+
+// wantedAfter: a want for k from peer p arrived after t0
+func (t *nodeTracer) wantedAfter(p peer.ID, k cid.Cid, t0 time.Time) bool {
+	t.mu.Lock()
+	defer t.mu.Unlock()
+	at, ok := t.wants[p][k]
+	return ok && at.After(t0)
 }
 
 func (t *nodeTracer) MessageSent(peer.ID, bsmsg.BitSwapMessage) {}
@@ -465,6 +523,14 @@ func (t *nodeTracer) latest(k cid.Cid) (arrival, bool) {
 	defer t.mu.Unlock()
 	a, ok := t.last[k]
 	return a, ok
+}
+
+// firstIn: the first arrival of a block with CID k in the given step
+func (t *nodeTracer) firstIn(k cid.Cid, step int) (time.Time, bool) {
+	t.mu.Lock()
+	defer t.mu.Unlock()
+	a, ok := t.first[k]
+	return a.at, ok && a.step == step
 }
 
 func valid(c Case) bool {
@@ -523,6 +589,11 @@ func attempt(c Case, allowance time.Duration) outcome {
 		mu.Unlock()
 	}
 
+	if devVerbose {
+		devEventsMu.Lock()
+		devEvents = nil
+		devEventsMu.Unlock()
+	}
 	net := tn.VirtualNetwork(delay.Fixed(time.Duration(c.DelayMs) * time.Millisecond))
 	router := mockrouting.NewServer()
 	var opts []bitswap.Option
@@ -542,7 +613,7 @@ func attempt(c Case, allowance time.Duration) outcome {
 		if err != nil {
 			panic(err)
 		}
-		tracers[n] = &nodeTracer{last: map[cid.Cid]arrival{}}
+		tracers[n] = &nodeTracer{node: n, last: map[cid.Cid]arrival{}, first: map[cid.Cid]arrival{}, wants: map[peer.ID]map[cid.Cid]time.Time{}}
 		nopts := append(append([]bitswap.Option(nil), opts...), bitswap.WithTracer(tracers[n]))
 		insts = append(insts, testinstance.NewInstance(instCtx, net, router.Client(id), id, nil, nopts))
 	}
@@ -611,21 +682,52 @@ func attempt(c Case, allowance time.Duration) outcome {
 	// outstanding[node][block]: some request of that node asked for the block and ended
 	// (cancelled) without having received it
 	outstanding := map[int]map[int]bool{}
-	noteEnd := func(node int, want, got map[int]bool) {
+	// per NewSession session and block: the steps (round * phases + phase) in which a call on that
+	// session asked for the block (sessAsked) / ended without it (sessWithout)
+	sessAsked := map[sessKey]map[int]map[int]bool{}
+	sessWithout := map[sessKey]map[int]map[int]bool{}
+	mark := func(m map[sessKey]map[int]map[int]bool, sk sessKey, k, step int) {
+		if m[sk] == nil {
+			m[sk] = map[int]map[int]bool{}
+		}
+		if m[sk][k] == nil {
+			m[sk][k] = map[int]bool{}
+		}
+		m[sk][k][step] = true
+	}
+	curStep := 0
+	noteEnd := func(q Req, want, got map[int]bool) {
 		mu.Lock()
 		defer mu.Unlock()
-		if outstanding[node] == nil {
-			outstanding[node] = map[int]bool{}
+		if outstanding[q.Node] == nil {
+			outstanding[q.Node] = map[int]bool{}
 		}
 		for k := range want {
 			if !got[k] {
-				outstanding[node][k] = true
+				outstanding[q.Node][k] = true
+				if q.Kind == "session" {
+					mark(sessWithout, sessKey{q.Node, q.Sess}, k, curStep)
+				}
 			}
 		}
 	}
+	// successiveOnSession: block k was asked for in step `step` by a call on a NewSession session
+	// of the node on which a call of the step before ended without it
+	successiveOnSession := func(node, k, step int) bool {
+		for sk, m := range sessAsked {
+			if sk.node == node && m[k][step] && sessWithout[sk][k][step-1] {
+				return true
+			}
+		}
+		return false
+	}
 	start := time.Now()
 	issued := map[int]time.Time{} // per request: when it was handed to the exchange (latest round)
-	var missingKeys []int         // the blocks request o.missingReq did not receive
+	// per request: when the exchange had accepted it (GetBlocks returned: the subscription for its
+	// blocks exists from then on; GetBlock: as issued)
+	accepted := map[int]time.Time{}
+	lastDelivered := map[int]map[int]time.Time{} // per node and block: latest delivery on a request channel
+	var missingKeys []int                        // the blocks request o.missingReq did not receive
 	lastPhase := 0
 	for _, q := range c.Reqs {
 		if q.Phase > lastPhase {
@@ -652,9 +754,10 @@ func attempt(c Case, allowance time.Duration) outcome {
 		}
 		ctx, cancel := context.WithCancel(parent)
 		defer cancel()
-		defer noteEnd(q.Node, want, got)
+		defer noteEnd(q, want, got)
 		mu.Lock()
 		issued[ri] = time.Now() // just before the request is handed to the exchange
+		accepted[ri] = issued[ri]
 		mu.Unlock()
 		defer func() {
 			if grouped && parent.Err() != nil && len(got) < len(want) {
@@ -674,6 +777,12 @@ func attempt(c Case, allowance time.Duration) outcome {
 				return false
 			}
 			got[i] = true
+			mu.Lock()
+			if lastDelivered[q.Node] == nil {
+				lastDelivered[q.Node] = map[int]time.Time{}
+			}
+			lastDelivered[q.Node][i] = time.Now()
+			mu.Unlock()
 			if !kit.Verify(b.Cid(), b.RawData()) || string(b.RawData()) != string(blks[i].RawData()) {
 				setViolation("request %d (%s on node %d) received wrong bytes for block %d", ri, q.Kind, q.Node, i)
 				return false
@@ -746,6 +855,9 @@ func attempt(c Case, allowance time.Duration) outcome {
 		} else {
 			ch, err = insts[q.Node].Exchange.GetBlocks(ctx, keys)
 		}
+		mu.Lock()
+		accepted[ri] = time.Now()
+		mu.Unlock()
 		if err != nil {
 			setViolation("request %d: GetBlocks failed: %v", ri, err)
 			return
@@ -821,7 +933,12 @@ func attempt(c Case, allowance time.Duration) outcome {
 		final := rp == rounds*(lastPhase+1)-1 // nothing starts after this phase
 		shift := time.Duration(round*c.SweepUs) * time.Microsecond
 		var wg sync.WaitGroup
+		for _, tr := range tracers {
+			tr.setStep(rp)
+		}
+		phaseStart := time.Now()
 		mu.Lock()
+		curStep = rp
 		for _, q := range c.Reqs {
 			if q.Phase != phase {
 				continue
@@ -830,6 +947,9 @@ func attempt(c Case, allowance time.Duration) outcome {
 				asked[q.Node] = map[cid.Cid]int{}
 			}
 			for _, k := range q.Keys {
+				if q.Kind == "session" {
+					mark(sessAsked, sessKey{q.Node, q.Sess}, k, rp)
+				}
 				asked[q.Node][blks[k].Cid()] = k
 				// "outstanding" describes the latest phase in which the node asked for the block
 				delete(outstanding[q.Node], k)
@@ -865,6 +985,48 @@ func attempt(c Case, allowance time.Duration) outcome {
 		}
 		mu.Lock()
 		bad := o.violation != "" || o.suspect != ""
+		if o.missingReq >= 0 {
+			// a delivery is missing: does it have the shape of an open finding? (see missingShape)
+			ri := o.missingReq
+			node := c.Reqs[ri].Node
+			var note string
+			successive := func(k int) bool {
+				q := c.Reqs[ri]
+				return q.Kind == "session" && sessWithout[sessKey{q.Node, q.Sess}][k][rp-1]
+			}
+			o.missingKnown, note = missingShape(c, ri, missingKeys, o.groupCancelled, successive, func(k int) (bool, string) {
+				a, ok := tracers[node].latest(blks[k].Cid())
+				arrived := ok && a.step == rp
+				asked := false
+				for _, h := range c.Place[k] {
+					asked = asked || tracers[h].wantedAfter(insts[node].Identity.ID(), blks[k].Cid(), issued[ri])
+				}
+				// published to another request while ri was subscribed for certain: another request
+				// of the node received the block in this step and no block with this CID had arrived
+				// in this step before the exchange accepted ri
+				f, ok := tracers[node].firstIn(blks[k].Cid(), rp)
+				other := ok && f.After(accepted[ri]) && lastDelivered[node][k].After(phaseStart)
+				return arrived && !asked && !other, fmt.Sprintf("block %d: arrived at node %d in this step: %v; a holder received a want for it from node %d after the request was issued: %v; delivered to another request of the node although it first arrived after the exchange had accepted the request: %v", k, node, arrived, node, asked, other)
+			})
+			o.suspect += " (" + note + ")"
+			if devVerbose {
+				devEventsMu.Lock()
+				fmt.Fprintf(os.Stderr, "c37: missing delivery: %s\n", o.suspect)
+				for n, in := range insts {
+					fmt.Fprintf(os.Stderr, "  node %d = %s\n", n, in.Identity.ID().String()[len(in.Identity.ID().String())-4:])
+				}
+				for i, b := range blks {
+					fmt.Fprintf(os.Stderr, "  block %d = %s\n", i, b.Cid().String()[len(b.Cid().String())-5:])
+				}
+				for r, at := range issued {
+					fmt.Fprintf(os.Stderr, "  request %d issued %s accepted %s\n", r, at.Format("05.000000"), accepted[r].Format("05.000000"))
+				}
+				for _, ev := range devEvents {
+					fmt.Fprintln(os.Stderr, "  "+ev)
+				}
+				devEventsMu.Unlock()
+			}
+		}
 		mu.Unlock()
 		if bad {
 			break
@@ -976,53 +1138,93 @@ func attempt(c Case, allowance time.Duration) outcome {
 				if held > 0 {
 					where += fmt.Sprintf("; the list had been seen clean, then the sessions were kept open for %v (ProviderSearchDelay %d ms, RebroadcastDelay %d ms; 0 = default) and the CIDs were on the list again", held, c.SearchMs, c.RebroadcastMs)
 				}
-				haveOnly := true
-				for _, k := range outst {
-					if inBlocks[k] {
-						haveOnly = false
+				// Does every lingering CID have the observable shape of an open finding (see the
+				// comment on the keys)?  (a) keyLateWant: a block with this CID arrived at the node in
+				// this step or the one before, i.e. a session can have handled the block (which
+				// retracts the want) while its want sender was still about to send a want for it;
+				// (b) keySameSession: the CID was asked for by two calls on one NewSession session, in
+				// one phase or in this step and the one before, and a request ended without it, i.e.
+				// the first call's cancel withdrew the session's interest while the other call's want
+				// stayed live (the want sender handles a cancel some time after the call ended: a
+				// clean want-list does not tell that it has).
+				lateOpen, overlapOpen := kit.OpenFinding("C37", keyLateWant), kit.OpenFinding("C37", keySameSession)
+				explained, allLate := len(notInWhole) == 0, true
+				var arrived, shared, onlyB []int // onlyB: explained by (b) alone
+				for _, k := range l {
+					a, ok := tracers[node].latest(blks[k].Cid())
+					late := ok && a.step >= rp-1
+					overlap := outstanding[node][k] && (sharedOnSession(c, node, k) || successiveOnSession(node, k, rp))
+					if late {
+						arrived = append(arrived, k)
+					}
+					if overlap {
+						shared = append(shared, k)
+					}
+					late, overlap = late && lateOpen, overlap && overlapOpen
+					explained = explained && (late || overlap)
+					allLate = allLate && late
+					if !late && overlap {
+						onlyB = append(onlyB, k)
 					}
 				}
-				// Is this a stale entry nobody owns, or does a live session keep (re-)listing these CIDs?
-				// Probe with the public API (only where the answer matters for the open finding
-				// keyRebroadcast): ask for the lingering CIDs once more through a throw-away request
+				// (a) leaves either an entry nobody owns (a want handed over after the cancel) or one
+				// a session still owns (the session recorded the call's want after the block had
+				// reached the call through another session's fetch): a probe cannot be asked for.
+				// (b) always leaves an entry nobody owns: that is probed.
+				needProbe := explained && !allLate
+				var asBlock []int
+				for _, k := range l {
+					if inBlocks[k] {
+						asBlock = append(asBlock, k)
+					}
+				}
+				where += fmt.Sprintf("; listed by GetWantBlocks(): %v", asBlock)
+				where += fmt.Sprintf("; a block arrived at the node in this step or the one before: %v; asked for by two calls on one session (in one phase, or in this step and the one before) and outstanding: %v", arrived, shared)
+				// Both findings leave an entry that no session owns. Probe that with the public API:
+				// ask for the lingering CIDs once more through a throw-away request
 				// (Exchange.GetBlocks) and cancel it. When that request's session shuts down, the
 				// exchange retracts every CID no session is interested in any more. A CID that is
 				// still listed then belongs to a session that is still interested in it (e.g. one
 				// that lost the cancel); a CID that leaves the list but is back after the sessions'
-				// timers have fired again is still a live want of a session that keeps re-broadcasting
-				// it. Only an entry that the probe clears for good was a one-off stale entry.
+				// timers have fired again is a live want of a session that keeps re-broadcasting it.
+				// Only an entry that the probe clears for good is a stale entry nobody owns. The
+				// probe is itself a request that can meet the finding keyLateWant (its blocks may
+				// arrive), so it is tried up to three times: a session that is still interested or
+				// keeps re-listing survives all of them.
 				ownerless := false
-				hasSession := false
-				for _, q := range c.Reqs {
-					hasSession = hasSession || q.Kind == "session"
-				}
-				if len(outst) > 0 && haveOnly && len(notInWhole) == 0 && hasSession {
+				if needProbe {
 					after := min(cleanup, afterProbeConfirm)
 					if allowance == firstAllowance {
 						after = min(cleanup, afterProbeFirst)
 					}
+					inL := map[int]bool{}
+					var pk []cid.Cid
+					for _, k := range onlyB {
+						inL[k] = true
+						pk = append(pk, blks[k].Cid())
+					}
 					listed := func() bool {
-						for _, k := range insts[node].Exchange.GetWantlist() {
-							if i, ok := asked[node][k]; ok {
-								for _, j := range l {
-									if i == j {
-										return true
-									}
+						lists := [][]cid.Cid{insts[node].Exchange.GetWantlist()}
+						if !devWantlistOnly {
+							lists = append(lists, insts[node].Exchange.GetWantBlocks(), insts[node].Exchange.GetWantHaves())
+						}
+						for _, ks := range lists {
+							for _, k := range ks {
+								if i, ok := asked[node][k]; ok && inL[i] {
+									return true
 								}
 							}
 						}
 						return false
 					}
-					var pk []cid.Cid
-					for _, k := range l {
-						pk = append(pk, blks[k].Cid())
-					}
-					pctx, pcancel := context.WithCancel(root)
-					pch, perr := insts[node].Exchange.GetBlocks(pctx, pk)
-					if perr != nil {
-						pcancel()
-						where += fmt.Sprintf("; probe request failed: %v", perr)
-					} else {
+					for try := 1; try <= probeAttempts && !ownerless; try++ {
+						pctx, pcancel := context.WithCancel(root)
+						pch, perr := insts[node].Exchange.GetBlocks(pctx, pk)
+						if perr != nil {
+							pcancel()
+							where += fmt.Sprintf("; probe request failed: %v", perr)
+							break
+						}
 						pdone := make(chan struct{})
 						go func() {
 							defer close(pdone)
@@ -1049,7 +1251,7 @@ func attempt(c Case, allowance time.Duration) outcome {
 						}
 						switch {
 						case !cleared:
-							where += fmt.Sprintf("; still listed %v after a throw-away request for these CIDs was cancelled: a session is still interested in them", after)
+							where += fmt.Sprintf("; probe %d: blocks %v still listed %v after a throw-away request for these CIDs was cancelled: a session is still interested in them", try, onlyB, after)
 						case c.SearchMs > 0 || c.RebroadcastMs > 0:
 							// let the session timers fire again (at least two periods)
 							rehold := time.Duration(2*max(c.SearchMs, c.RebroadcastMs)+10) * time.Millisecond
@@ -1058,25 +1260,42 @@ func attempt(c Case, allowance time.Duration) outcome {
 							}
 							time.Sleep(rehold)
 							if listed() {
-								where += fmt.Sprintf("; a throw-away request for these CIDs, cancelled again, cleared them, but %v later (session timers: ProviderSearchDelay %d ms, RebroadcastDelay %d ms) they were listed again: a session keeps re-broadcasting them", rehold, c.SearchMs, c.RebroadcastMs)
+								where += fmt.Sprintf("; probe %d: a throw-away request for these CIDs, cancelled again, cleared them, but %v later (session timers: ProviderSearchDelay %d ms, RebroadcastDelay %d ms) they were listed again: a session keeps re-broadcasting them", try, rehold, c.SearchMs, c.RebroadcastMs)
 							} else {
 								ownerless = true
-								where += fmt.Sprintf("; a throw-away request for these CIDs, cancelled again, cleared them and they stayed off the list for %v (session timers: ProviderSearchDelay %d ms, RebroadcastDelay %d ms): a stale entry", rehold, c.SearchMs, c.RebroadcastMs)
+								where += fmt.Sprintf("; probe %d: a throw-away request for these CIDs, cancelled again, cleared them and they stayed off the list for %v (session timers: ProviderSearchDelay %d ms, RebroadcastDelay %d ms): a stale entry", try, rehold, c.SearchMs, c.RebroadcastMs)
 							}
 						default:
 							ownerless = true
-							where += "; a throw-away request for these CIDs, cancelled again, cleared them: a stale entry"
+							where += fmt.Sprintf("; probe %d: a throw-away request for these CIDs, cancelled again, cleared them: a stale entry", try)
 						}
 					}
 				}
+				if devVerbose {
+					devEventsMu.Lock()
+					fmt.Fprintf(os.Stderr, "c37: lingering want on node %d, blocks %v: %s\n", node, l, where)
+					for n, in := range insts {
+						fmt.Fprintf(os.Stderr, "  node %d = %s\n", n, in.Identity.ID().String()[len(in.Identity.ID().String())-4:])
+					}
+					for i, b := range blks {
+						fmt.Fprintf(os.Stderr, "  block %d = %s\n", i, b.Cid().String()[len(b.Cid().String())-5:])
+					}
+					for r, at := range issued {
+						fmt.Fprintf(os.Stderr, "  request %d issued %s accepted %s\n", r, at.Format("05.000000"), accepted[r].Format("05.000000"))
+					}
+					for _, ev := range devEvents {
+						fmt.Fprintln(os.Stderr, "  "+ev)
+					}
+					devEventsMu.Unlock()
+				}
 				setSuspect("want-list of node %d still holds blocks %v %v after all its requests (round %d, phases 0..%d) completed or were cancelled (%s; delivered to every asker: %v; outstanding at a cancellation: %v)", node, l, cleanup, round, phase, where, deliv, outst)
 				mu.Lock()
-				o.lingerOnlyDelivered = len(outst) == 0
-				o.lingerAllInWantlist = len(notInWhole) == 0
-				o.lingerOutstanding = len(outst) > 0
-				o.lingerDelivered = len(deliv) > 0
-				o.lingerOutstHaveOnly = haveOnly
-				o.lingerOwnerless = ownerless
+				switch {
+				case explained && allLate:
+					o.lingerKnown = keyLateWant
+				case explained && ownerless:
+					o.lingerKnown = keySameSession
+				}
 				mu.Unlock()
 				break
 			}
@@ -1276,10 +1495,14 @@ var (
 	afterProbeFirst   = 2 * time.Second
 	afterProbeConfirm = 10 * time.Second
 	confirmAttempts   = 3
+	probeAttempts     = 3
 )
 
 // development aid (bite tests of the second phase only): poll GetWantlist() alone
 var devWantlistOnly = os.Getenv("VERIF_C37_DEV_WANTLIST_ONLY") == "1"
+
+// development aid: print every suspicion that is excluded as a known finding
+var devVerbose = os.Getenv("VERIF_C37_VERBOSE") == "1"
 
 func init() {
 	// development aid: shorter / longer allowances
@@ -1295,6 +1518,11 @@ func run(c Case) kit.Result {
 	if !valid(c) {
 		return kit.Result{}
 	}
+	if d := os.Getenv("VERIF_C37_DUMPALL"); d != "" { // development aid: list the generated cases
+		b, _ := json.Marshal(map[string]any{"property": "C37", "check": "main", "error": "", "case": c})
+		os.WriteFile(fmt.Sprintf("%s/case-%d.json", d, time.Now().UnixNano()), b, 0o644)
+		return kit.Result{}
+	}
 	o := attempt(c, firstAllowance)
 	if o.violation != "" {
 		return kit.Fail("%s", o.violation)
@@ -1303,16 +1531,14 @@ func run(c Case) kit.Result {
 	if o.suspect == "" {
 		return kit.Result{NonTrivial: o.nt, Classes: cls}
 	}
+	if d := os.Getenv("VERIF_DEBUG_DIR"); d != "" && devVerbose {
+		b, _ := json.Marshal(map[string]any{"property": "C37", "check": "main", "error": o.suspect, "case": c})
+		os.WriteFile(fmt.Sprintf("%s/c37-any-%d.json", d, time.Now().UnixNano()), b, 0o644)
+	}
 	// open known findings with a signature that is visible in the first run: no confirmation
 	// run (it would cost up to the long allowance for every such case)
-	if o.missingReq >= 0 && sameSessionOverlapCancelled(c, o.missingReq, o.groupCancelled) && kit.OpenFinding("C37", keySameSession) {
-		return kit.Result{Err: errors.New(o.suspect), Known: keySameSession}
-	}
-	if o.lingerOnlyDelivered && o.lingerAllInWantlist && kit.OpenFinding("C37", keyLateWant) {
-		return kit.Result{Err: errors.New(o.suspect), Known: keyLateWant}
-	}
-	if o.rebroadcastSignature(c) && kit.OpenFinding("C37", keyRebroadcast) && (!o.lingerDelivered || kit.OpenFinding("C37", keyLateWant)) {
-		return kit.Result{Err: errors.New(o.suspect), Known: keyRebroadcast}
+	if k := o.known(); k != "" && kit.OpenFinding("C37", k) {
+		return excluded(c, o.suspect, k, cls)
 	}
 	// timing-dependent suspicion: run the case again on its own with a long allowance
 	fmt.Fprintf(os.Stderr, "c37: suspicion (%s); re-running the case alone with %v allowance\n", o.suspect, confirmAllowance)
@@ -1340,91 +1566,208 @@ func run(c Case) kit.Result {
 		return kit.Fail("%s", o2.violation)
 	}
 	if o2.suspect != "" {
-		res := kit.Fail("%s (confirmed: first run: %s)", o2.suspect, o.suspect)
-		switch {
-		case o2.missingReq >= 0 && sameSessionOverlapCancelled(c, o2.missingReq, o2.groupCancelled):
-			res.Known = keySameSession
-		case o2.lingerOnlyDelivered && o2.lingerAllInWantlist:
-			res.Known = keyLateWant
-		case o2.rebroadcastSignature(c) && (!o2.lingerDelivered || kit.OpenFinding("C37", keyLateWant)):
-			res.Known = keyRebroadcast
+		msg := fmt.Sprintf("%s (confirmed: first run: %s)", o2.suspect, o.suspect)
+		if k := o2.known(); k != "" && kit.OpenFinding("C37", k) {
+			return excluded(c, msg, k, cls)
 		}
-		return res
+		return kit.Fail("%s", msg)
 	}
 	return kit.Result{Classes: append(cls, "inconclusive:suspicion-not-confirmed")}
 }
 
+// The two open findings and the observable states their root causes can produce on the
+// unchanged tree (derived from bitswap/client/internal/session/session.go, sessionwantsender.go,
+// sessionmanager.go, sessioninterestmanager.go, peermanager/peerwantmanager.go):
+//
+// keyLateWant. A session runs two goroutines: Session.run and its sessionWantSender. When a
+// block arrives, Session.ReceiveFrom queues the update for the want sender and then opReceive
+// for the session; Session.handleReceive withdraws the session's interest and - if no other
+// session is interested - calls PeerManager.SendCancels at once, on the session goroutine. The
+// want sender may at that moment be inside onChange for an earlier change (a HAVE, a new want,
+// another block) with the CID still in its want map, and hands a want-block / want-have for it
+// to PeerManager.SendWants after the cancel. Nothing retracts that want: the session's interest
+// is gone, so neither a later cancel of the request (CancelSessionWants finds no interest and
+// sends nothing) nor closing the session (RemoveSession likewise) touches it; only the end of
+// some later request for the same CID does. Every other retraction is ordered with the sends
+// (a cancelled request is handled by the want sender itself: untrack, then CancelSessionWants,
+// then the sends; a session shuts down its want sender before RemoveSession), so the root cause
+// needs a block of that CID to have ARRIVED at the node while a session was interested.
+// Observable states: the CID is in some peer's want set (as want-block or want-have) and in
+// the CID -> peers index, so GetWantlist() reports it together with GetWantBlocks() or
+// GetWantHaves(); the request(s) that asked for it may have received it ("delivered") or may
+// have been cancelled between the arrival and the hand-over to their channel (the getter
+// strikes the CID off its list before it offers the block, so the request's own cancel does
+// not name it) or earlier ("outstanding at a cancellation" in the words of this harness); it
+// happens on NewSession sessions and on the throw-away sessions of Exchange.GetBlock(s) alike;
+// it survives the session; a later request for the CID that ends (the probe) clears it for good.
+// While it is there, the peer manager believes the peer was asked and neither broadcasts nor
+// sends the CID to that peer again, so a request for the CID issued after the arrival (in the
+// same phase) can starve.
+// A second way to the same state (a want registered after the block was dealt with): a call
+// subscribes to its CIDs before the session loop records its want (getter.AsyncGetBlocks:
+// Subscribe, then opWant is queued). If the block arrives through another session's fetch in
+// between, the call gets it from the pubsub and ends without naming the CID in its cancel; the
+// session, which was not interested when the block arrived, then records the want, lists or
+// sends it, and keeps it for as long as it lives (a broadcast want-have is not even sent again,
+// the peer manager holds it for already broadcast): here a session still owns the entry, so a
+// probe does not clear it. Seen on a busy machine. Both ways need the block to have arrived at
+// the node in the step in question.
+//
+// keySameSession. Interest is recorded per session, not per call: when one of two calls on a
+// session that share a key ends without the block, CancelSessionWants withdraws the session's
+// interest in the key and cancels it, although the other call's want is still (or again)
+// tracked by the session and its want sender. The other call can be concurrent or a later one:
+// the cancel is executed by the want sender's goroutine (Session.run only queues it), some time
+// after the call's channel was closed, and a want-list that is clean does not tell that it has
+// been (the wants of the call may never have been sent); a call on the same session for the
+// same key issued in between records its interest at once (Session.run) and loses it to the
+// earlier call's cancel. Seen on a busy machine with bursts repeated in rounds. (1) The other call never gets the block (an
+// arriving block nobody is interested in is dropped): missing delivery. (2) Wants for the key
+// that the session sends or re-broadcasts afterwards (want sender, idle tick, periodic search)
+// are never retracted, because the other call's cancel finds no interest: the key stays listed
+// as a broadcast want-have or in a peer's want set, reported by GetWantlist(); both calls ended
+// without the block; only a NewSession session (two calls on one session); the entry survives
+// the session; the probe clears it for good.
 const (
-	// two GetBlocks calls on one session with a common key: when one call is cancelled the
-	// session drops the want for the common key although the other call still waits for it
 	keySameSession = "same-session-overlap-cancel-starves"
-	// a want sent to a peer after the block arrived (and its cancel went out) is never
-	// retracted: the CID stays on the want-list although every request got the block. Such a
-	// want is recorded in the peer's want set and in the CID -> peers index alike, so GetWantlist()
-	// reports it too; a CID that only GetWantBlocks()/GetWantHaves() report is not explained by
-	// this finding.
-	keyLateWant = "want-relisted-after-delivery"
-	// a long-lived session broadcasts want-haves for CIDs its want sender reported as "all
-	// session peers answered DONT_HAVE" although the request that wanted them was cancelled in
-	// between (Session.run, opBroadcast after opCancel): the CIDs are back on the want-list as
-	// broadcast want-haves and no session is interested in them, so nothing retracts them (not even
-	// the shutdown of the session) until some later request for the same CID ends. Signature: see
-	// rebroadcastSignature.
+	keyLateWant    = "want-relisted-after-delivery"
+	// fixed in boxo 91a250c (Session.run filters opBroadcast by FilterWanted): a long-lived
+	// session broadcast want-haves for cancelled CIDs its want sender had reported as exhausted.
+	// No exclusion any more; the repro case of the finding still runs with every check.
 	keyRebroadcast = "cancelled-want-rebroadcast"
 )
 
-// rebroadcastSignature: the lingering-want suspicion matches the open finding keyRebroadcast.
-// Some lingering CID was outstanding when its request was cancelled; every one of these is listed
-// as a want-have only (a broadcast) and by GetWantlist() too; the case has a long-lived session
-// on which CIDs nobody holds (or stored late) were requested - only then a session peer answers
-// DONT_HAVE; and the probe cleared the CIDs for good: after a throw-away request for them was
-// cancelled they left the list and did not come back while the session timers (if short) fired
-// twice more. A want a session is still interested in - e.g. one whose cancel the session lost -
-// survives the probe, and one that a session still counts as live is re-broadcast by its timers;
-// neither is explained by this finding. Lingering CIDs that had been delivered to every asker
-// are tolerated next to them only while the finding keyLateWant is open.
-func (o outcome) rebroadcastSignature(c Case) bool {
-	if !o.lingerOutstanding || !o.lingerOutstHaveOnly || !o.lingerAllInWantlist || !o.lingerOwnerless {
-		return false
+// known: the open finding whose observable shape the suspicion has, or "".
+func (o outcome) known() string {
+	if o.missingReq >= 0 {
+		return o.missingKnown
 	}
-	sess := false
-	for _, q := range c.Reqs {
-		if q.Kind == "session" {
-			sess = true
-		}
-	}
-	return sess
+	return o.lingerKnown
 }
 
-// sameSessionOverlapCancelled: request ri shares its session, its phase (the calls are
-// concurrent) and at least one key with a request that ends by cancellation (own cancel point,
-// keys nobody holds, or - as observed in the run - cut short by the cancellation of the shared
-// context of its cancel group).
-func sameSessionOverlapCancelled(c Case, ri int, groupCancelled map[int]bool) bool {
-	q := c.Reqs[ri]
-	if q.Kind != "session" {
-		return false
+// excluded builds the result for a suspicion that has the shape of the open finding key. The
+// repro case of a finding that is fixed must fail only if that finding returns (kit.RunFindings
+// reports any failure of such a case), not when it happens to meet another, open finding: such
+// a run of it counts as passed.
+func excluded(c Case, msg, key string, cls []string) kit.Result {
+	cj, _ := json.Marshal(c)
+	if devVerbose {
+		fmt.Fprintf(os.Stderr, "c37: excluded as %s: %s\n", key, msg)
 	}
-	mine := map[int]bool{}
-	for _, k := range q.Keys {
-		mine[k] = true
-	}
-	for j, r := range c.Reqs {
-		if j == ri || r.Kind != "session" || r.Node != q.Node || r.Sess != q.Sess || r.Phase != q.Phase {
+	for _, f := range kit.Findings() {
+		if f.Property != "C37" || f.Status == "open" || len(f.Case) == 0 {
 			continue
 		}
-		cancels := r.Cancel >= 0 || groupCancelled[j]
-		common := false
-		for _, k := range r.Keys {
-			if len(c.Place[k]) == 0 {
-				cancels = true
-			}
-			if mine[k] {
-				common = true
+		var fc Case
+		if json.Unmarshal(f.Case, &fc) == nil {
+			if fj, _ := json.Marshal(fc); string(fj) == string(cj) {
+				fmt.Fprintf(os.Stderr, "c37: the repro case of the fixed finding %s met the open finding %s: %s\n", f.Key, key, msg)
+				return kit.Result{Classes: append(cls, "repro-of-fixed-finding-met-open-finding:"+key)}
 			}
 		}
-		if cancels && common {
+	}
+	return kit.Result{Err: errors.New(msg), Known: key}
+}
+
+// sharedOnSession: block k is asked for by two calls of one phase on one NewSession session of
+// the node (the domain of the finding keySameSession).
+func sharedOnSession(c Case, node, k int) bool {
+	has := func(q Req) bool {
+		for _, x := range q.Keys {
+			if x == k {
+				return true
+			}
+		}
+		return false
+	}
+	for i, q := range c.Reqs {
+		if q.Kind != "session" || q.Node != node || !has(q) {
+			continue
+		}
+		for _, r := range c.Reqs[i+1:] {
+			if r.Kind == "session" && r.Node == node && r.Sess == q.Sess && r.Phase == q.Phase && has(r) {
+				return true
+			}
+		}
+	}
+	return false
+}
+
+// missingShape: request ri did not receive the blocks `missing` that connected nodes hold. The
+// open finding whose shape that has, or "". Every missing block must be explained:
+//   - keySameSession: two calls of ri's phase on one NewSession session of ri's node ask for
+//     the block and one of them ends by cancellation (own cancel point, keys nobody holds, or -
+//     as observed in the run - cut short by the cancellation of its cancel group): the session
+//     dropped its interest in the block, which starves the other call, and every other request
+//     of that node for the block as well (the stale want makes the peer manager skip the holder).
+//     Or (successive): ri is a call on a NewSession session on which a call of the step before
+//     ended without the block: that call's cancel, handled late by the session's want sender,
+//     withdrew the interest ri had recorded.
+//   - keyLateWant (stale): a block with that CID arrived at the node in this step, so an earlier
+//     request (or nobody) took it and a want handed to the peer manager after that can still be
+//     recorded for the holder; then ri's wants for the block are not sent to that peer: no
+//     holder of the block received a want for it from ri's node after ri was issued (message tap
+//     of the holders). And no other request of the node received the block after the exchange
+//     had accepted ri (from then on ri's subscription exists: a block published to another
+//     request then has to reach ri too - that would be a different defect).
+func missingShape(c Case, ri int, missing []int, groupCancelled map[int]bool, successive func(k int) bool, stale func(k int) (bool, string)) (string, string) {
+	if len(missing) == 0 {
+		return "", ""
+	}
+	key, note := keyLateWant, ""
+	for _, k := range missing {
+		st, n := stale(k)
+		if note != "" {
+			note += "; "
+		}
+		note += n
+		switch {
+		case key == "":
+		case st:
+		case sameSessionOverlapCancelled(c, ri, k, groupCancelled) || successive(k):
+			key = keySameSession
+		default:
+			key = ""
+		}
+	}
+	return key, note
+}
+
+// sameSessionOverlapCancelled: two session calls on request ri's node, in ri's phase and on one
+// session both ask for block k, and one of them ends by cancellation (own cancel point, keys
+// nobody holds, or - as observed in the run - cut short by the cancellation of the shared
+// context of its cancel group). ri itself may be one of the two or a third request.
+func sameSessionOverlapCancelled(c Case, ri, k int, groupCancelled map[int]bool) bool {
+	q := c.Reqs[ri]
+	has := func(r Req) bool {
+		for _, x := range r.Keys {
+			if x == k {
+				return true
+			}
+		}
+		return false
+	}
+	cancels := func(j int) bool {
+		r := c.Reqs[j]
+		if r.Cancel >= 0 || groupCancelled[j] {
 			return true
+		}
+		for _, x := range r.Keys {
+			if len(c.Place[x]) == 0 {
+				return true
+			}
+		}
+		return false
+	}
+	for i, a := range c.Reqs {
+		if a.Kind != "session" || a.Node != q.Node || a.Phase != q.Phase || !has(a) {
+			continue
+		}
+		for j := i + 1; j < len(c.Reqs); j++ {
+			b := c.Reqs[j]
+			if b.Kind == "session" && b.Node == q.Node && b.Phase == q.Phase && b.Sess == a.Sess && has(b) && (cancels(i) || cancels(j)) {
+				return true
+			}
 		}
 	}
 	return false
